@@ -59,6 +59,12 @@ def ev_coq(e):
         return 'ETick'
     if k == 'scan':
         return '(EScan %s)' % cbool(bool(a[0]) if a else False)
+    if k == 'scan_begin':
+        return 'EScanBegin'
+    if k == 'scan_step':
+        return '(EScanStep %s)' % cbool(bool(a[0]) if a else False)
+    if k == 'scan_end':
+        return 'EScanEnd'
     if k == 'advance':
         return '(EAdvance %s)' % cz(a[0])
     if k == 'discard':
@@ -338,7 +344,7 @@ def mon_C06(case, obs):
             softs = [t for t in j['cb'][3] if t[0]]
             if len(softs) > 1:
                 out.append(('C06:soft-callback-twice', 'job %d: %s' % (k, j['cb'][3])))
-        if e[0] == 'scan':
+        if e[0] in ('scan', 'scan_step'):
             usr1 = [s for s in o['sigs'] if s[1] == 10]
             targets = [s[0] for s in usr1]
             if len(set(targets)) != len(targets):
@@ -347,7 +353,9 @@ def mon_C06(case, obs):
                 prev = obs[n - 1] if n else None
                 owned = [j for j in (prev or o)['jobs'] if j['kind'] == 'apply' and p in j['wpids'] and not j['ready']]
                 if prev is not None and not owned:
-                    out.append(('C06:soft-signal-without-running-job', 'USR1 to pid %d at event %d' % (p, n)))
+                    out.append(('C06:soft-signal-without-running-job',
+                                'USR1 sent to pid %d at event %d %s although no unresolved job is owned by it '
+                                '(its result had already been handled)' % (p, n, e)))
     return out
 
 
@@ -655,7 +663,9 @@ def real_scenarios(res, pid, specs):
                 alarm('C05:real-hard-limit-not-enforced', 'outcome %s' % r['outcome'])
             elif r['failed_after_s'] > sp.get('hard', 1) + 4:
                 alarm('C05:real-hard-limit-late', 'failed after %ss' % r['failed_after_s'])
-            if r['old_worker_alive']:
+            if r['old_worker_alive'] is None:
+                alarm('C05:real-accept-callback-not-run', 'the accept callback never ran for the timed-out job')
+            elif r['old_worker_alive']:
                 alarm('C05:timed-out-worker-still-alive', 'the worker that ran the job still exists')
             if r['later'] != ['ok', 10]:
                 alarm('C05:pool-unusable-after-hard-limit', 'a later job on a %d-process pool: %s' % (sp.get('n', 1), r['later']))
